@@ -407,7 +407,8 @@ func (m *Uint64Map) EachItem(f func(id uint64, tagged []Tagged, goroutine int) e
 	var cause error
 	var lock sync.Mutex
 	buckets := make(chan int)
-	cancel := make(chan struct{}, goroutines)
+	cancel := make(chan struct{})
+	var cancelOnce sync.Once
 	var wg sync.WaitGroup
 	readBuckets := func(goroutine int) {
 		ids := idsAndTags{
@@ -415,6 +416,7 @@ func (m *Uint64Map) EachItem(f func(id uint64, tagged []Tagged, goroutine int) e
 			Tags: make([]Tagged, 0, m.MaxBucketLength()/8),
 		}
 		var err error
+	reading:
 		for bucket := range buckets {
 			m.fillIDsAndTagged(bucket, &ids)
 			if len(ids.IDs) > 0 {
@@ -422,21 +424,23 @@ func (m *Uint64Map) EachItem(f func(id uint64, tagged []Tagged, goroutine int) e
 				for i := 1; i < len(ids.IDs); i++ {
 					if ids.IDs[i] != ids.IDs[start] {
 						if err = f(ids.IDs[start], ids.Tags[start:i], goroutine); err != nil {
-							break
+							break reading
 						}
 						start = i
 					}
 				}
 				if err = f(ids.IDs[start], ids.Tags[start:], goroutine); err != nil {
-					break
+					break reading
 				}
 			}
 		}
 		if err != nil {
 			lock.Lock()
-			cause = err
-			cancel <- struct{}{}
+			if cause == nil {
+				cause = err
+			}
 			lock.Unlock()
+			cancelOnce.Do(func() { close(cancel) })
 		}
 		wg.Done()
 	}
@@ -445,16 +449,17 @@ func (m *Uint64Map) EachItem(f func(id uint64, tagged []Tagged, goroutine int) e
 	for i := 0; i < goroutines; i++ {
 		go readBuckets(i)
 	}
+feeding:
 	for bucket := 0; bucket < m.Layout.SentinelBucket(); bucket++ {
 		select {
 		case buckets <- bucket:
 		case <-cancel:
-			break
+			break feeding
 		}
 	}
 	close(buckets)
 	wg.Wait()
-	close(cancel)
+	cancelOnce.Do(func() { close(cancel) })
 	return cause
 }
 
